@@ -142,6 +142,14 @@ def concat_di_search(ctx, shim, r, nfonts, per_font, pc, pt):
                               kind="concat", groups=F.di_groups(r, nfonts), make=di_make, classify=F.di_known_class)
 
 
+def concat_stch_search(ctx, shim, r, nfonts, per_font, pc, pt):
+    C03mod.metamorphic_search(ctx, shim, r, per_font, pc, pt, False, "concat-redistribution-stch", F.verify_concat, [pc, pc, pc | pt],
+                              "redistributing UNSAFE_TO_CONCAT-free segments changes the result",
+                              F.STCH_RULE + "the redistribution experiment of concat-redistribution-ot",
+                              kind="concat", groups=F.stch_groups(r, nfonts), make=lambda r, g, fl, k: F.make_stch_shaping(r, g, fl),
+                              classify=F.stch_known_class)
+
+
 FRACTION_RULE = ("fonts with fraction features (synthetic: digits, U+2044, letters of Latin / Hebrew, any of frac / numr / dnom that makes "
                  "the plan fraction-aware; plus every font under tests/fonts that names frac or numr+dnom) x texts of digit runs, "
                  "U+2044 FRACTION SLASH, letters and spaces with at least one slash (digits on both, one or no side of it) x "
@@ -191,6 +199,7 @@ def run(ctx):
     concat_synth_search(ctx, shim, ctx.rng("concat-synth"), ctx.budget(200, 4000), 12, pc, pt)
     concat_fraction_search(ctx, shim, ctx.rng("concat-fraction"), ctx.budget(30, 400), ctx.budget(30, 60), pc, pt)
     concat_di_search(ctx, shim, ctx.rng("concat-di"), ctx.budget(300, 6000), 16, pc, pt)
+    concat_stch_search(ctx, shim, ctx.rng("concat-stch"), ctx.budget(100, 2000), 12, pc, pt)
 
 
 def replay(ctx, rp):
